@@ -543,19 +543,24 @@ impl System for PollSys {
     }
     fn render(&self, a: &PoAct) -> String {
         match a {
-            PoAct::Cc(c, v) | PoAct::CcProbe(c, v) => format!("cc:{}:{}:{}", self.ch, c, v),
+            PoAct::Cc(c, v) => format!("cc:{}:{}:{}", self.ch, c, v),
+            PoAct::CcProbe(c, v) => format!("ccprobe:{}:{}:{}", self.ch, c, v),
             PoAct::Other(i) => {
                 let (s, a, b) = self.others[*i as usize];
                 format!("raw:{}:{}:{}", s, a, b)
             }
             PoAct::Transparent(i) => {
                 let (s, a, b) = self.noncontrib[*i as usize];
-                format!("raw:{}:{}:{}", s, a, b)
+                format!("transparent:{}:{}:{}", s, a, b)
             }
             PoAct::Poll => format!("poll:{}", self.ch),
             PoAct::Tick => "tick".to_string(),
-            PoAct::Reset | PoAct::ResetProbe => "reset".to_string(),
+            PoAct::Reset => "reset".to_string(),
+            PoAct::ResetProbe => "resetprobe".to_string(),
         }
+    }
+    fn rust_preamble(&self) -> String {
+        format!("// build with RUSTFLAGS=\"--cfg helgoboss_midi_verif\" for the mock clock\n    let mut scanner = helgoboss_midi::PollingParameterNumberMessageScanner::new(std::time::Duration::from_millis({}));\n    let mut clock = 0u64;", self.timeout)
     }
     fn rust_line(&self, a: &PoAct) -> String {
         match a {
